@@ -538,6 +538,10 @@ class _Sim(object):
                 ev["raised"] = info["raises"]
                 if info["raises"] == "AssertionError":
                     raise AssertionError("cleanup %s fails" % cid)
+                if info["raises"] == "StopIteration":
+                    # (e.g. a bare next() on an exhausted iterator; inside a generator fixture's
+                    #  teardown Python turns it into a RuntimeError - an error all the same)
+                    raise StopIteration("cleanup %s fails" % cid)
                 raise Exception("cleanup %s fails" % cid)
         finally:
             self.stack.pop()
@@ -655,6 +659,13 @@ class _Sim(object):
         if k == "ok":
             return
         self.fire("outcome_" + k)
+        if out.get("pre_skip") and context is not None and ev["kind"] == "step":
+            try:
+                context.scenario.skip(reason="then fails")
+                ev["did"].append(["skip_then_fail"])
+                self.fire("skip_then_fail")
+            except Exception:
+                pass
         if k == "kbi" and ev["kind"] == "hook":
             self.fire("interrupt_in_hook:" + ev["name"])
         if k == "assert":
@@ -663,8 +674,13 @@ class _Sim(object):
                 raise AssertionError()
             raise AssertionError(out["msg"])
         if k == "exc":
-            ev["raised"] = out["cls"]
-            cls = getattr(__import__("builtins"), out["cls"])
+            if ":" in out["cls"]:
+                mod_, nm_ = out["cls"].split(":")
+                cls = getattr(__import__(mod_, fromlist=[nm_]), nm_)      # e.g. behave.exception:ConfigError
+                ev["raised"] = nm_
+            else:
+                ev["raised"] = out["cls"]
+                cls = getattr(__import__("builtins"), out["cls"])
             raise cls(out["msg"])
         if k == "notimpl":
             from behave.api.pending_step import StepNotImplementedError, PendingStepError
@@ -892,6 +908,9 @@ class _Sim(object):
         if text == "WORSE":
             self.fire("converter_raises_keyerror")
             raise KeyError(text)
+        if text == "ASSERT":
+            self.fire("converter_raises_assertion")
+            raise AssertionError("converter asserts")
         if type_name == "Num":
             return int(text)
         return text.lower()
@@ -1378,7 +1397,15 @@ def run_world(world, root, extra_formatters=None, keep_model=False, post=None):
                         hist["post_error"] = "%s: %s" % (type(e).__name__, e)
         except (ConfigError, TagExpressionError) as e:
             hist["rc"] = 1
-            hist["config_error"] = "%s: %s" % (type(e).__name__, e)
+            if any(ev_.get("raised") == type(e).__name__ for ev_ in SIM.events):
+                # raised by a scripted callback (a hook may raise any exception class), not by the
+                # configuration: it escaped the runner
+                tb = traceback.extract_tb(e.__traceback__)
+                frames = [(os.path.relpath(f.filename, os.environ.get("VERIF_REPO", "/repo"))
+                           if "behave" in f.filename else f.filename, f.name, f.lineno) for f in tb]
+                hist["escaped"] = {"type": type(e).__name__, "msg": str(e)[:300], "frames": frames[-12:]}
+            else:
+                hist["config_error"] = "%s: %s" % (type(e).__name__, e)
         except SystemExit as e:
             hist["rc"] = e.code if isinstance(e.code, int) else 1
             hist["system_exit"] = True
